@@ -580,7 +580,24 @@ func (r *Run) exec(s SymStep) StepRec {
 		browser = s.U
 		a := r.account(s.PW.V)
 		raw := a.PID + ";" + strings.Repeat("Z", 32)
-		j := jar{"rm": base64.URLEncoding.EncodeToString([]byte(raw))}
+		val := base64.URLEncoding.EncodeToString([]byte(raw))
+		switch s.D { // malformed shapes
+		case 1:
+			val = "%%not*base64%%"
+		case 2:
+			val = base64.URLEncoding.EncodeToString([]byte(a.PID))
+		case 3:
+			val = base64.URLEncoding.EncodeToString([]byte(a.PID + ":" + strings.Repeat("Z", 32)))
+		case 4:
+			val = base64.URLEncoding.EncodeToString([]byte(";" + strings.Repeat("Z", 32)))
+		case 5:
+			val = base64.URLEncoding.EncodeToString([]byte(strings.Repeat("Z", 32)))
+		case 6:
+			val = val[:len(val)-3]
+		case 7:
+			val = base64.StdEncoding.EncodeToString([]byte(a.PID + ";" + strings.Repeat("\xff\xfe", 16)))
+		}
+		j := jar{"rm": val}
 		w.cook.mu.Lock()
 		w.cook.jars[browser] = j
 		w.cook.mu.Unlock()
